@@ -6,6 +6,9 @@
    separate result MFuel / CFuel, excluded by theorem path_match_no_fuel. *)
 From Verif.Base Require Import Bytes Utf8.
 
+Definition hd_is (c : Z) (s : str) : bool :=
+  match s with x :: _ => x =? c | [] => false end.
+
 (* ---- getEsc: a possibly escaped character of a character class -------------------------
    None = ErrBadPattern; Some (r, nchunk) otherwise (nchunk is then non-empty). *)
 Definition get_esc (chunk : str) : option (Z * str) :=
@@ -34,23 +37,19 @@ Fixpoint class_loop (fuel : nat) (r : Z) (chunk : str) (nrange : bool) (matched 
   match fuel with
   | O => ClFuel
   | S f =>
-      match chunk, nrange with
-      | 93 :: rest, true => ClOk matched rest
-      | _, _ =>
-          match get_esc chunk with
-          | None => ClBad
-          | Some (lo, chunk1) =>
-              match chunk1 with
-              | 45 :: chunk2 =>
-                  match get_esc chunk2 with
-                  | None => ClBad
-                  | Some (hi, chunk3) =>
-                      class_loop f r chunk3 true (matched || ((lo <=? r) && (r <=? hi)))
-                  end
-              | _ => class_loop f r chunk1 true (matched || ((lo <=? r) && (r <=? lo)))
+      if nrange && hd_is 93 chunk then ClOk matched (tl chunk)
+      else
+        match get_esc chunk with
+        | None => ClBad
+        | Some (lo, chunk1) =>
+            if hd_is 45 chunk1 then
+              match get_esc (tl chunk1) with
+              | None => ClBad
+              | Some (hi, chunk3) =>
+                  class_loop f r chunk3 true (matched || ((lo <=? r) && (r <=? hi)))
               end
-          end
-      end
+            else class_loop f r chunk1 true (matched || ((lo <=? r) && (r <=? lo)))
+        end
   end.
 
 Inductive chunk_res := CBad | CFuel | CFail | CMatch (rest : str).
@@ -71,10 +70,8 @@ Fixpoint match_chunk (fuel : nat) (chunk : str) (st : option str) : chunk_res :=
                              | Some s => let (rn, n) := decode s in (rn, Some (skipn n s))
                              | None => (0, None)
                              end in
-            let '(negated, chunk2) := match chunk1 with
-                                      | 94 :: c2 => (true, c2)
-                                      | _ => (false, chunk1)
-                                      end in
+            let negated := hd_is 94 chunk1 in
+            let chunk2 := if negated then tl chunk1 else chunk1 in
             match class_loop (S (length chunk2)) r chunk2 false false with
             | ClBad => CBad
             | ClFuel => CFuel
@@ -228,8 +225,8 @@ Fixpoint take_elems (n : nat) (t : str) : option str :=
 
 Definition trim_slash (g : str) : str :=
   match rev g with
-  | 47 :: r => rev r
-  | _ => g
+  | c :: r => if c =? 47 then rev r else g
+  | [] => g
   end.
 
 Definition count_byte (c : Z) (s : str) : nat :=
